@@ -19,7 +19,8 @@ RULE = ('every (signal, option set) pair of the grid; per pair 17 transformed ru
         'factors x 8 mask configurations; non-trivial = base decomposition has >= 2 columns')
 ASSUMPTIONS = ['non-dyadic scalings and time reversal are judged only when every stop decision of both runs is farther '
                'than 1e-7 (relative) from its threshold and no iterate has a non-zero neighbour difference below 1e-9 of '
-               'its amplitude (guard band, measured at seams on sd_stop / rilling_stop / _find_extrema); exclusions are counted',
+               'its amplitude, nor (for the zero-crossing frequency source) a sample within 1e-9 of zero (guard band, measured at '
+               'seams on sd_stop / rilling_stop / _find_extrema / zero_crossing_count); exclusions are counted',
                'mask sifts are only claimed under positive rescaling (a fixed-phase mask set is not sign-symmetric)',
                'sift_thresh is an absolute amount in signal units and is rescaled together with the signal (|c|*1e-8)',
                'a run that raises EMDSiftCovergeError must do so for the transformed input as well (dyadic) / is skipped (others)']
@@ -41,7 +42,16 @@ def worker_init():
     import emd.sift as S
     if _orig:
         return
-    _orig.update(sd=S.sd_stop, ril=S.rilling_stop, fe=S._find_extrema)
+    _orig.update(sd=S.sd_stop, ril=S.rilling_stop, fe=S._find_extrema, zc=S.zero_crossing_count)
+
+    def zero_crossing_count(X):
+        # the zero-crossing count decides on the SIGN of every sample: a sample within rounding distance of zero
+        # (or exactly zero in one run and 4e-16 in the other) is a decision on the last bit -> tie margin
+        v = np.abs(np.asarray(X, dtype=float)).reshape(-1)
+        if v.size and v.max() > 0:
+            _m['tie'] = min(_m['tie'], v.min() / v.max())
+        return _orig['zc'](X)
+    S.zero_crossing_count = zero_crossing_count
 
     def sd_stop(proto_imf, prev_imf, sd=0.2, niters=None):
         stop, metric = _orig['sd'](proto_imf, prev_imf, sd=sd, niters=niters)
